@@ -39,6 +39,7 @@ def verify_contract(src, K, shape, chips='int', cuts=None, timeout_ms=10000, con
     out['build_s'] = round(time.time() - t0, 3)
     out['notes'] = vc.notes
     out['stats'] = dict(vc.I.stats)
+    pairs = []
     for ob in obs:
         if only is not None and not only(ob):
             continue
@@ -55,5 +56,60 @@ def verify_contract(src, K, shape, chips='int', cuts=None, timeout_ms=10000, con
             txt = smt2_of(ob.negation())
             rec['smt2'] = txt if len(txt) < 6000 else txt[:6000] + '\n; ... truncated'
         out['results'].append(rec)
+        pairs.append((ob, rec))
+    try:
+        conformance_samples(vc, pairs)
+    except Exception:   # noqa  (sampling is an extra; never let it break a verdict)
+        out['notes'] = list(out.get('notes', [])) + ['conformance sampling failed: ' + traceback.format_exc()[-400:]]
     out['total_s'] = round(time.time() - t0, 3)
     return out
+
+
+def conformance_samples(vc, pairs, per_contract=None):
+    """Conformance of the encoding with CPython, by sampling: for a few DISCHARGED obligations take a model of the hypothesis (an
+    input on that path -- diversified by random equalities on the pre-state's integers), decode it, and let the native replay run the
+    real function on it and evaluate the same clause.  The clause was proved, so natively it must hold; if it does not, the encoding
+    (or the decoding) is wrong.  The models are attached here; the runner replays them."""
+    import os
+    import random
+    import z3
+    n = int(os.environ.get('PYVC_CONFORM', '2')) if per_contract is None else per_contract
+    if n <= 0:
+        return
+    rng = random.Random(hash(vc.ccls.target) & 0xffff)
+    # callees replaced by an abstract contract (uninterpreted validity / strength, custom cuts of a driver) take values natively that
+    # the model need not take: such runs are not comparable, so nothing is sampled there
+    abstract = [q for q, c in (vc.I.cuts or {}).items() if not getattr(c, '_havoc', False) and not getattr(c, '_replayable', False)]
+    if getattr(vc.I, 'native_cuts', None):
+        return
+    cands = [(ob, rec) for ob, rec in pairs if ob.kind in ('P', 'A', 'raises', 'frame') and rec.get('status') == VALID
+             and not str(ob.meta.get('path', '')).startswith('loop-')]
+    rng.shuffle(cands)
+    done = 0
+    for ob, rec in cands:
+        if done >= n:
+            break
+        s = z3.Solver()
+        s.set('timeout', 3000)
+        s.add(ob.hyp if not isinstance(ob.hyp, bool) else z3.BoolVal(ob.hyp))
+        if s.check() != z3.sat:
+            continue
+        model = s.model()
+        ints = [d() for d in model.decls() if d.arity() == 0 and d.range() == z3.IntSort() and not d.name().startswith(('arg.mode', 'q!', 'k!'))]
+        for attempt in range(6):
+            pick = rng.sample(ints, min(len(ints), rng.choice([2, 3, 4]))) if ints else []
+            s.push()
+            for v in pick:
+                s.add(v == rng.choice([0, 1, 1, 2, 3, 5, 8]))
+            if s.check() == z3.sat:
+                model = s.model()
+                s.pop()
+                break
+            s.pop()
+        try:
+            m = vc.decode_model(model)
+            m['abstract_callees'] = sorted(set(m.get('abstract_callees') or []) | set(abstract))
+            rec['conform_model'] = m
+            done += 1
+        except Exception:   # noqa
+            continue
